@@ -37,7 +37,18 @@ func Harness_C03_SelfCertifying() {
 	}
 	c := gen.NewCreate("c", clientCode, somePatches("c")...)
 	if verifrt.Choose("anchor-origin", 2) == 1 {
-		c.Suffix.AnchorOrigin = verifrt.AnyAtom("origin")
+		// an opaque string, a URL-like string with a trailing slash / surrounding blanks / upper-case letters (nothing
+		// is normalised: the suffix data is hashed as given), or an object
+		switch verifrt.Choose("origin-shape", 4) {
+		case 0:
+			c.Suffix.AnchorOrigin = verifrt.AnyAtom("origin")
+		case 1:
+			c.Suffix.AnchorOrigin = "https://origin.example/" + verifrt.AnyAtom("origin") + "/"
+		case 2:
+			c.Suffix.AnchorOrigin = " HTTPS://Origin.Example/" + verifrt.AnyAtom("origin") + " "
+		default:
+			c.Suffix.AnchorOrigin = map[string]interface{}{"domain": verifrt.AnyAtom("origin")}
+		}
 	}
 	if verifrt.Choose("type", 2) == 1 {
 		c.Suffix.Type = verifrt.AnyAtom("suffix-type")
